@@ -96,3 +96,10 @@ M["M13_overwrite_compares_astype_str"] = ("fastparquet/writer.py", '''    partit
         for values in new_partitions.itertuples(index=False, name=None)}
 ''', '''    partition_values_in_new = set(new_partitions.astype(str).agg('/'.join, axis=1))
 ''', "M")
+M["M14_partition_names_from_paths_only"] = ("fastparquet/api.py", '''        return list(self.partition_meta)
+''', '''        return list(self.cats)
+''', "M")
+M["M15_emptied_dataset_written_drill_style"] = ("fastparquet/api.py", '''                        file_scheme=('hive' if self.file_scheme == 'empty'
+                                     else self.file_scheme),
+''', '''                        file_scheme=self.file_scheme,
+''', "M")
